@@ -6,6 +6,8 @@ props=[json.loads(l) for l in open('/verif/properties.jsonl')]
 listed=set(l.split()[0] for l in subprocess.run(['/verif/bin/vischeck','-list'],capture_output=True,text=True).stdout.splitlines() if l.strip())
 TECH="static analysis over go/types + go/ssa of /repo's current tree: "
 CLAIMED={
+ 'C02':("typestate abstract interpretation of the row-grouping loop (rows in page, buffer emptiness, separator/emit/cursor pending, page counter minus pages emitted), CFG cuts on the browse-entry flag protocol with normalised last/first-page comparisons, zone bounds of the page cursor and menu functions, separator and result plumbing by value flow",
+        "Decides structural necessary conditions of pagination for all row contents (including empty rows), sizes and indices: a page index past the end is an error; 'next'/'previous' are offered exactly off the last/first page; in the grouping loop a separator lies between any two rows of a page, every page holding rows is emitted and counted, and each page separator gets exactly one cursor at the offset behind it; cursor 0 precedes the grouping, the menu's page count and the sink value are the grouping's results, the lookup cuts at the first separator including offset 0, separators agree. The partition relation itself and everything depending on the capacity arithmetic (where breaks fall, whether a row fits a fresh page) are value-level and not decided. One defect found and repaired (empty rows lost)."),
  'C14':("table extraction and comparison (opcode maps, switch case sets, decoder success-path argument signatures vs every NewLine call site in the repository and the ParseHandler callback types), zone bounds of the primitive decoders, encoder limit guards",
         "Decides format agreement between the separate codecs on finite tables: opcode tables inverse and complete, per-opcode argument signatures identical at the decoder, at every encoder call site and in the disassembler callbacks, primitive framing limits agree and cannot wrap, the integer encoder keeps low-order bytes. Round-trip equality of values over the full domains is value-level and not decided."),
  'C16':("backward value flow from symbol writers to numeric grammar captures through int-to-string conversions; extraction of the batch expansion from SSA and comparison with the documented table; opcode-identity flow",
@@ -46,7 +48,6 @@ CLAIMED={
         "Closest to a proof in this suite: every index, slice and length-preconditioned call on bytecode in package vm is proved in bounds for all byte strings from dominating guards; every decoder error is shown to flow to the caller with results used only behind err==nil; dispatch totality, opcode and integer-width range, and equal argument sequences on all success paths are decided. Callbacks supplied by callers are outside."),
 }
 NA={
- 'C02':"not applicable to static analysis: the property is a value-level relation between all pages of one render and the row list (partition, order, navigability), decided by pagination arithmetic over run-time lengths; no dominance, pairing or table argument implies it, and a rule pinned to today's expressions would fire on equivalent rewrites. Its one structural clause (out-of-range page index yields an error, not a panic) is checked under C08.",
 }
 checks=[];na=[]
 for p in props:
